@@ -17,15 +17,15 @@ From JV Require Import Gen.Consts Model.Chess Model.TT Model.Search Model.Search
 Import ListNotations.
 Local Open Scope string_scope.
 
-Theorem C13_uciok : forall extra u input,
-  uci_step extra u "uci" input = (u, [OText "id name JENCE"; OText "id author Joachim Enggaard Nebel"; OText "uciok"], None, input, Continue).
+Theorem C13_uciok : forall extra dl u input,
+  uci_step extra dl u "uci" input = (u, [OText "id name JENCE"; OText "id author Joachim Enggaard Nebel"; OText "uciok"], None, input, Continue).
 Proof. exact step_uci. Qed.
-Theorem C13_readyok_idle : forall extra u input, uci_step extra u "isready" input = (u, [OText "readyok"], None, input, Continue).
+Theorem C13_readyok_idle : forall extra dl u input, uci_step extra dl u "isready" input = (u, [OText "readyok"], None, input, Continue).
 Proof. exact step_isready. Qed.
-Theorem C13_quit_exits : forall extra u input, uci_step extra u "quit" input = (u, [OText " Exited!"], None, input, Exit).
+Theorem C13_quit_exits : forall extra dl u input, uci_step extra dl u "quit" input = (u, [OText " Exited!"], None, input, Exit).
 Proof. exact step_quit. Qed.
-Theorem C13_ucinewgame : forall extra u input,
-  uci_step extra u "ucinewgame" input = (mkU (u_game u) (clear (u_tt u)) [], [], None, input, Continue).
+Theorem C13_ucinewgame : forall extra dl u input,
+  uci_step extra dl u "ucinewgame" input = (mkU (u_game u) (clear (u_tt u)) [], [], None, input, Continue).
 Proof. exact step_ucinewgame. Qed.
 
 Theorem C13_isready_does_not_stop : poll_dispatch "isready" = PReady.
@@ -48,7 +48,7 @@ Theorem C13_one_readyok_per_isready_during_search : forall fuel input at_ np n s
                           (firstn (List.length input - List.length rest) input)).
 Proof. exact poll_schedule_ready_count. Qed.
 
-Theorem C13_terminates : forall extra input, snd (uci_session extra input) <> Continue.
+Theorem C13_terminates : forall extra dls input, snd (uci_session extra dls input) <> Continue.
 Proof. exact uci_session_ends. Qed.
 
 Definition is_best (o : uout) : bool := match o with OSearchOut (OBest _) => true | _ => false end.
@@ -58,26 +58,23 @@ Proof. intros H. induction l as [|x l IH]; [reflexivity|]. cbn [map filter]. rew
 Lemma filter_repeat_none (P : uout -> bool) o n : P o = false -> filter P (repeat o n) = [].
 Proof. intros H. induction n as [|n IH]; [reflexivity|]. cbn [repeat filter]. rewrite H. exact IH. Qed.
 
-(* at the level of the main loop: every `go` line whose arguments parse and whose budget the loop model covers (depth-limited,
-   infinite, or a deadline that has already passed) -- whatever the engine state, the remaining input and its timing -- is answered
+(* at the level of the main loop: every `go` line whose arguments parse -- depth-limited, infinite, bare, or with any time budget, the deadline being
+   seen by whichever poll the oracle `dl` names -- whatever the engine state, the remaining input and its timing -- is answered
    with the lines of one search: readyok for the isready lines taken meanwhile, info lines, and exactly one bestmove, which is the last line *)
-Theorem C13_go_answered_with_exactly_one_bestmove : forall extra u line input a msgs,
+Theorem C13_go_answered_with_exactly_one_bestmove : forall extra dl u line input a msgs,
   lower_str (first_token (trim line)) = "go" -> trim line <> "" ->
   go_tokens (white (u_game u)) go_init (split_sp (skip 2 (trim line))) [] (S (String.length (trim line))) = GoArgs a msgs ->
-  (go_budget a = -1 \/ go_budget a = 0)%Z ->
-  let '(_, outs, _, _, st) := uci_step extra u line input in
+  let '(_, outs, _, _, st) := uci_step extra dl u line input in
   st = Continue /\ List.length (filter is_best outs) = 1%nat /\ exists pre m, outs = (pre ++ [OSearchOut (OBest m)])%list.
 Proof.
-  intros extra u line input a msgs CMD NE GT BD. unfold uci_step. cbn zeta.
+  intros extra dl u line input a msgs CMD NE GT. unfold uci_step. cbn zeta.
   destruct (String.eqb_spec (trim line) "") as [E|_]; [contradiction|]. rewrite CMD.
   change (String.eqb "go" "quit" || String.eqb "go" "exit" || String.eqb "go" "x")%bool with false. cbn iota.
   change (String.eqb "go" "uci") with false. change (String.eqb "go" "isready") with false.
   change (String.eqb "go" "ucinewgame" || String.eqb "go" "cleartt")%bool with false. change (String.eqb "go" "d") with false.
   change (String.eqb "go" "eval") with false. change (String.eqb "go" "position") with false. change (String.eqb "go" "go") with true. cbn iota.
   rewrite GT.
-  assert (NB : negb ((go_budget a =? -1)%Z || (go_budget a =? 0)%Z) = false).
-  { destruct BD as [B|B]; rewrite B; reflexivity. }
-  rewrite NB. unfold session_search.
+  unfold session_search.
   match goal with |- context [chess_search ?p ?s ?b ?g ?d ?t ?rt ?ri] => destruct (C03_exactly_one_bestmove p s b g d t rt ri) as (infos & m & e & sc & H & FI) end.
   rewrite H.
   assert (FIN : forall (nready : nat),
@@ -91,18 +88,16 @@ Proof.
         destruct x; [cbn [is_best]; apply IH; exact Hl|destruct Hx]. }
       rewrite Z. reflexivity.
     - exists (map OText msgs ++ repeat (OText "readyok") nready ++ map OSearchOut infos)%list, m. rewrite map_app. cbn [map]. rewrite <- !app_assoc. reflexivity. }
-  destruct BD as [B|B]; rewrite B; cbn [Z.eqb].
-  - destruct (poll_schedule input 0 (Some (npolls e)) (List.length input)) as [[nready stopper] rest]. split; [reflexivity|apply FIN].
-  - split; [reflexivity|apply FIN].
+  destruct (poll_schedule input 0 _ (List.length input)) as [[nready stopper] rest]. split; [reflexivity|apply FIN].
 Qed.
 
 (* a line a poll hands back (anything but isready / stop / an empty line arriving during a search) is the very next line the main loop
    executes, before anything else of the input: it is not lost *)
-Theorem C13_handed_back_line_is_executed_next : forall extra f u l input,
-  uci_run extra (S f) u (Some l) input =
-  (let '(u', outs, rq, input', st) := uci_step extra u l input in
+Theorem C13_handed_back_line_is_executed_next : forall extra dls f u l input,
+  uci_run extra dls (S f) u (Some l) input =
+  (let '(u', outs, rq, input', st) := uci_step extra (List.hd O dls) u l input in
    match st with
-   | Continue => let '(outs', st') := uci_run extra f u' rq input' in ((outs ++ outs')%list, st')
+   | Continue => let '(outs', st') := uci_run extra (List.tl dls) f u' rq input' in ((outs ++ outs')%list, st')
    | _ => (outs, st)
    end).
 Proof. reflexivity. Qed.
@@ -118,7 +113,7 @@ Qed.
 
 (* ------------------------------------------------------------------ whole sessions *)
 (* the lines the main loop executes, each with the state it is executed in (the same recursion as uci_run) *)
-Fixpoint uci_exec (extra : N) (fuel : nat) (u : ustate) (pending : option string) (input : list (nat * string)) : list (ustate * string) :=
+Fixpoint uci_exec (extra : N) (dls : list nat) (fuel : nat) (u : ustate) (pending : option string) (input : list (nat * string)) : list (ustate * string) :=
   match fuel with
   | O => []
   | S f =>
@@ -130,17 +125,17 @@ Fixpoint uci_exec (extra : N) (fuel : nat) (u : ustate) (pending : option string
     match next with
     | None => []
     | Some (l, input') =>
-      let '(u', outs, requeue, input'', st) := uci_step extra u l input' in
-      (u, l) :: match st with Continue => uci_exec extra f u' requeue input'' | _ => [] end
+      let '(u', outs, requeue, input'', st) := uci_step extra (List.hd O dls) u l input' in
+      (u, l) :: match st with Continue => uci_exec extra (List.tl dls) f u' requeue input'' | _ => [] end
     end
   end.
 
-(* a `go` the loop model covers: its arguments parse and it is depth-limited, infinite, or its deadline has already passed *)
+(* a `go` whose arguments parse (any depth, any time budget) *)
 Definition answerable_go (ul : ustate * string) : bool :=
   let line := trim (snd ul) in
   negb (String.eqb line "") && String.eqb (lower_str (first_token line)) "go" &&
   match go_tokens (white (u_game (fst ul))) go_init (split_sp (skip 2 line)) [] (S (String.length line)) with
-  | GoArgs a _ => ((go_budget a =? -1) || (go_budget a =? 0))%Z
+  | GoArgs _ _ => true
   | _ => false
   end.
 Definition count_best (outs : list uout) : nat := List.length (filter is_best outs).
@@ -150,18 +145,16 @@ Proof. unfold count_best. rewrite filter_app, app_length. reflexivity. Qed.
 Lemma count_best_text l : count_best (map OText l) = O.
 Proof. unfold count_best. rewrite (filter_map_none OText) by reflexivity. reflexivity. Qed.
 
-Lemma step_best_count extra u line input :
-  let '(_, outs, _, _, _) := uci_step extra u line input in count_best outs = if answerable_go (u, line) then 1%nat else O.
+Lemma step_best_count extra dl u line input :
+  let '(_, outs, _, _, _) := uci_step extra dl u line input in count_best outs = if answerable_go (u, line) then 1%nat else O.
 Proof.
   destruct (answerable_go (u, line)) eqn:AG.
   - unfold answerable_go in AG. cbn [fst snd] in AG. apply andb_prop in AG. destruct AG as (AG & GT). apply andb_prop in AG. destruct AG as (NE & CM).
     destruct (go_tokens _ _ _ _ _) as [a msgs|msgs| |] eqn:G; try discriminate GT.
-    pose proof (C13_go_answered_with_exactly_one_bestmove extra u line input a msgs) as K.
+    pose proof (C13_go_answered_with_exactly_one_bestmove extra dl u line input a msgs) as K.
     assert (CM' : lower_str (first_token (trim line)) = "go") by (apply String.eqb_eq; exact CM).
     assert (NE' : trim line <> "") by (intros E; rewrite E in NE; discriminate NE).
-    assert (BD : (go_budget a = -1 \/ go_budget a = 0)%Z).
-    { apply orb_prop in GT. destruct GT as [B|B]; apply Z.eqb_eq in B; auto. }
-    specialize (K CM' NE' G BD). destruct (uci_step extra u line input) as [[[[u' outs] rq] i'] st]. destruct K as (_ & K & _). exact K.
+    specialize (K CM' NE' G). destruct (uci_step extra dl u line input) as [[[[u' outs] rq] i'] st]. destruct K as (_ & K & _). exact K.
   - unfold uci_step. cbv zeta.
     destruct (String.eqb (trim line) "") eqn:E0; [reflexivity|].
     set (cmd := lower_str (first_token (trim line))) in *.
@@ -173,8 +166,7 @@ Proof.
     { destruct (negb _); [reflexivity|]. destruct (parse_position _) as [[g rep]| |]; reflexivity. }
     destruct (String.eqb cmd "go") eqn:CG.
     + unfold answerable_go in AG. cbn [fst snd] in AG. rewrite E0 in AG. fold cmd in AG. rewrite CG in AG. cbn [negb andb] in AG.
-      destruct (go_tokens _ _ _ _ _) as [a msgs|msgs| |]; [|apply count_best_text|reflexivity|reflexivity].
-      rewrite AG. cbn [negb]. rewrite count_best_app, count_best_text. reflexivity.
+      destruct (go_tokens _ _ _ _ _) as [a msgs|msgs| |]; [discriminate AG|apply count_best_text|reflexivity|reflexivity].
     + destruct (String.eqb cmd "stop"); [reflexivity|].
       destruct (String.eqb cmd "move"). { destruct (play_moves _ _ _) as [[g rep]| |]; reflexivity. }
       destruct (String.eqb cmd "perft").
@@ -189,16 +181,16 @@ Qed.
 
 (* every session, whatever its lines and their timing: the number of best moves printed is exactly the number of `go` commands the main loop
    executed (those the model covers) -- each is answered once, none twice, and nothing else prints a best move *)
-Theorem C13_every_go_of_a_session_is_answered_exactly_once : forall extra fuel u pending input,
-  count_best (fst (uci_run extra fuel u pending input)) = List.length (filter answerable_go (uci_exec extra fuel u pending input)).
+Theorem C13_every_go_of_a_session_is_answered_exactly_once : forall extra dls fuel u pending input,
+  count_best (fst (uci_run extra dls fuel u pending input)) = List.length (filter answerable_go (uci_exec extra dls fuel u pending input)).
 Proof.
-  intros extra fuel. induction fuel as [|f IH]; intros u pending input; [reflexivity|].
+  intros extra dls fuel. revert dls. induction fuel as [|f IH]; intros dls u pending input; [reflexivity|].
   cbn [uci_run uci_exec].
   destruct (match pending with Some l => Some (l, input) | None => match input with [] => None | (_, l) :: r => Some (l, r) end end) as [[l input']|]; [|reflexivity].
-  pose proof (step_best_count extra u l input') as K.
-  destruct (uci_step extra u l input') as [[[[u' outs] rq] input''] st].
+  pose proof (step_best_count extra (List.hd O dls) u l input') as K.
+  destruct (uci_step extra (List.hd O dls) u l input') as [[[[u' outs] rq] input''] st].
   cbn [filter]. destruct st.
-  - specialize (IH u' rq input''). destruct (uci_run extra f u' rq input'') as [outs' st']. cbn [fst] in *.
+  - specialize (IH (List.tl dls) u' rq input''). destruct (uci_run extra (List.tl dls) f u' rq input'') as [outs' st']. cbn [fst] in *.
     rewrite count_best_app, K, IH. destruct (answerable_go (u, l)); reflexivity.
   - cbn [fst]. rewrite K. destruct (answerable_go (u, l)); reflexivity.
   - cbn [fst]. rewrite K. destruct (answerable_go (u, l)); reflexivity.
